@@ -23,8 +23,9 @@ trap revert EXIT
 git -C $repo apply "$d/patch.diff" || exit 3
 for id in "$@"; do
   s=$(date +%s)
-  EVOVERIF_OUT=$out /verif/check $id --tier $tier --repo $repo > $out/$id.log 2>&1
+  EVOVERIF_OUT=$out timeout ${SEED_TIMEOUT:-3600} /verif/check $id --tier $tier --repo $repo > $out/$id.log 2>&1
   rc=$?
+  [ $rc = 124 ] && pkill -f "evoverif.runne[r] $id --tier $tier --repo $repo"
   nv=$(grep -c '^VIOLATION' $out/$id.log)
   first=$(grep -m1 '^  -> ' $out/$id.log | cut -c1-260)
   [ -z "$first" ] && first=$(grep -m1 'INCONCLUSIVE\|HARNESS-ERROR' $out/$id.log | cut -c1-260)
